@@ -23,7 +23,7 @@ for f in sorted(glob.glob(os.path.join(VERIF, "seeded", "*", "meta.json"))):
     nblind += 1 if sm.get("blind") else 0
     rows.append("| %s | %s | %s | %s | %s | %s |" % (m["seed"], sm.get("what", ""), sm.get("needs", ""), "yes" if m.get("confirmed") else "NO", caught + (" - " + how if how else ""), blind))
 block = ["### 5.5 Seeded changes (written by sub-agents that saw only the property text; confirmed, then run against the checks)", "",
-         "Four rounds (1-3: one change per property; 4: two per property, `CNNdA` in v2 and `CNNdB` in the root module; rounds 2-4 were told the",
+         "Five rounds (1-3: one change per property; 4 and 5: two per property, `CNNdA`/`CNNeA` in v2 and `CNNdB`/`CNNeB` in the root module; rounds 2-5 were told the",
          "one-line descriptions of the earlier changes and asked for a different mechanism; round 3 had to change the root module only wherever",
          "the property names both generations). Each change",
          "compiles, passes the repository's own suite, and comes with a demonstration that fails with the change and passes without it",
@@ -34,8 +34,11 @@ block = ["### 5.5 Seeded changes (written by sub-agents that saw only the proper
          "request, colliding unrequested key, only-generated output directory, user directory at a generated path, rich default literals, annotations, short",
          "network reads, lenient client, key order on the wire, cross-namespace includes, failed decodes first, colliding requested keys, byte arrays in untyped values,",
          "wildcard next to named spec entries, whole-record annotations, 16 KiB texts, parameter-only key variants, extended hashes, namespaces sharing a last segment, GOOS-suffixed type",
-         "names, 4 KiB+ queries, host named like the root, concurrent registrations), once a vacuous condition in a check (C10 key-hash law guarded by a predicate that is true for equal values), and twice the driver (a crash in every shard, and a job that cannot drive channel operations,",
-         "were reported as inconclusive instead of letting the other jobs decide).", "",
+         "names, 4 KiB+ queries, host named like the root, concurrent registrations; round 5: a client shared by all calls of a configuration, context path ending with the root,",
+         "create-only-only and entity-returning resources, unserialisable entities, large batches, bracket keys, broken tunnelled bodies, reused enum receivers,",
+         "registration while serving, hashes across processes, optional fields with defaults, prefix-named fields, regeneration into a used directory, dependency manifests), once a vacuous condition in a check (C10 key-hash law guarded by a predicate that is true for equal values), three times the driver or harness build (a crash in every shard, a job that cannot drive channel operations, and a harness registry naming generated",
+         "identifiers the changed generator no longer emits, were reported as inconclusive instead of a verdict), and twice a check that looked in the wrong place",
+         "(C03 envelope returned early on a failing call; C08 checked the status of the second probe only).", "",
          "| seed | change | needs, to manifest | confirmed | caught by (quick tier) | caught |", "|---|---|---|---|---|---|"] + rows + [""]
 p = os.path.join(VERIF, "DESIGN.md")
 s = open(p).read()
